@@ -13,11 +13,14 @@ package htlcswitch
 // integers directly on these observed results.
 
 import (
+	"encoding/json"
 	"errors"
 	"fmt"
 	"math"
 	"math/big"
+	"os"
 	"testing"
+	"time"
 
 	"github.com/btcsuite/btcd/btcutil/v2"
 	"github.com/btcsuite/btclog/v2"
@@ -598,6 +601,16 @@ func TestVerifPolicy(t *testing.T) {
 
 	var hash [32]byte
 	fixed := vFixed()
+	if rp := os.Getenv("VERIF_REPLAY_CASE"); rp != "" {
+		// --replay: exactly one recorded input, on the channel whose
+		// bandwidth is closest to the recorded one.
+		rc := &vPolCase{}
+		if err := json.Unmarshal([]byte(rp), rc); err != nil {
+			t.Fatal(err)
+		}
+		rc.Cls = "replay"
+		fixed = []*vPolCase{rc}
+	}
 	for ci := 0; ci < ncases+len(fixed); ci++ {
 		r := master.fork(uint64(ci))
 		c := &vPolCase{Case: ci, Kind: "fwd"}
@@ -605,6 +618,11 @@ func TestVerifPolicy(t *testing.T) {
 		if ci < len(fixed) {
 			c, chi = fixed[ci], len(chans)-1
 			c.Case = ci
+			for k, b := range bws {
+				if c.Cls == "replay" && b == c.ChanBw {
+					chi = k
+				}
+			}
 		}
 
 		// class of the case
@@ -647,7 +665,9 @@ func TestVerifPolicy(t *testing.T) {
 				vPerturb(r, c, vPick(r, vPerturbs...))
 			}
 		}
-		if r.intn(8) == 0 && ci >= len(fixed) {
+		if ci < len(fixed) {
+			// kind is part of the fixed case
+		} else if r.intn(8) == 0 {
 			c.Kind = "transit"
 		}
 
@@ -692,6 +712,160 @@ func TestVerifPolicy(t *testing.T) {
 			)
 		}
 		c.Code, c.Detail, c.Name, c.Arg = vClassify(le)
+		out.emit(c)
+	}
+
+	vSelectPart(t, out, master.fork(1<<40))
+}
+
+// vSelCase is one packet pushed through the REAL Switch.handlePacketAdd with
+// four mock links to the next peer whose EligibleToForward / CheckHtlcForward
+// answers the harness chose.
+type vSelCase struct {
+	Case   int    `json:"case"`
+	Kind   string `json:"kind"` // "select"
+	Elig   []bool `json:"elig"`
+	Checks []int  `json:"checks"` // per link: 0 nil, else harness wire enum
+	Req    int    `json:"req"`    // index of the requested outgoing link
+	Chosen int    `json:"chosen"` // link that received the add, -1 = failed
+	Reply  int    `json:"reply"`  // wire enum of the failure sent back
+	Name   string `json:"name"`
+}
+
+const vUnknownNextPeer = 20
+
+func vSelectPart(t *testing.T, out *vWriter, r *vrng) {
+	n := vCases(150, 3000)
+	if n > 3000 {
+		n = 3000
+	}
+	alicePeer, err := newMockServer(
+		t, "alice", testStartingHeight, nil, testDefaultDelta,
+	)
+	if err != nil {
+		t.Fatal(err)
+	}
+	bobPeer, err := newMockServer(
+		t, "bob", testStartingHeight, nil, testDefaultDelta,
+	)
+	if err != nil {
+		t.Fatal(err)
+	}
+	s, err := initSwitchWithTempDB(t, testStartingHeight)
+	if err != nil {
+		t.Fatal(err)
+	}
+	if err := s.Start(); err != nil {
+		t.Fatal(err)
+	}
+	defer s.Stop()
+
+	chanID1, aliceChanID := genID()
+	alice := newMockChannelLink(
+		s, chanID1, aliceChanID, emptyScid, alicePeer, true, false,
+		false, false,
+	)
+	if err := s.AddLink(alice); err != nil {
+		t.Fatal(err)
+	}
+	var bobs []*mockChannelLink
+	for i := 0; i < 4; i++ {
+		cid, scid := genID()
+		b := newMockChannelLink(
+			s, cid, scid, emptyScid, bobPeer, true, false, false,
+			false,
+		)
+		if err := s.AddLink(b); err != nil {
+			t.Fatal(err)
+		}
+		bobs = append(bobs, b)
+	}
+	mk := func(k int) *LinkError {
+		switch k {
+		case vFeeInsufficient:
+			return NewLinkError(&lnwire.FailFeeInsufficient{})
+		case vTemporaryChannelFailure:
+			return NewDetailedLinkError(
+				lnwire.NewTemporaryChannelFailure(nil),
+				OutgoingFailureInsufficientBalance,
+			)
+		case vExpiryTooSoon:
+			return NewLinkError(&lnwire.FailExpiryTooSoon{})
+		case vIncorrectCltvExpiry:
+			return NewLinkError(&lnwire.FailIncorrectCltvExpiry{})
+		case vExpiryTooFar:
+			return NewLinkError(&lnwire.FailExpiryTooFar{})
+		}
+
+		return nil
+	}
+	kinds := []int{0, 0, 0, vFeeInsufficient, vTemporaryChannelFailure,
+		vExpiryTooSoon, vIncorrectCltvExpiry, vExpiryTooFar}
+
+	for ci := 0; ci < n; ci++ {
+		c := &vSelCase{Case: ci, Kind: "select", Chosen: -1}
+		// a third of the cases: nobody admits (failure path)
+		allFail := r.intn(3) == 0
+		for i, b := range bobs {
+			e := r.intn(4) != 0
+			k := vPick(r, kinds...)
+			if allFail && e && k == 0 {
+				if r.bool() {
+					e = false
+				} else {
+					k = vPick(r, kinds[3:]...)
+				}
+			}
+			b.eligible = e
+			b.checkHtlcForwardResult = mk(k)
+			c.Elig = append(c.Elig, e)
+			c.Checks = append(c.Checks, k)
+			_ = i
+		}
+		c.Req = r.intn(len(bobs))
+
+		var pre [32]byte
+		copy(pre[:], r.bytes(32))
+		obfuscator := NewMockObfuscator()
+		packet := &htlcPacket{
+			incomingChanID: alice.ShortChanID(),
+			incomingHTLCID: uint64(ci),
+			outgoingChanID: bobs[c.Req].ShortChanID(),
+			htlc: &lnwire.UpdateAddHTLC{
+				PaymentHash: pre,
+				Amount:      1,
+			},
+			obfuscator: obfuscator,
+		}
+		if err := s.ForwardPackets(nil, packet); err != nil {
+			t.Fatal(err)
+		}
+		var le *LinkError
+		select {
+		case p := <-alice.packets:
+			le = p.linkFailure
+			if le == nil {
+				t.Fatalf("select %d: reply without failure", ci)
+			}
+		case <-bobs[0].packets:
+			c.Chosen = 0
+		case <-bobs[1].packets:
+			c.Chosen = 1
+		case <-bobs[2].packets:
+			c.Chosen = 2
+		case <-bobs[3].packets:
+			c.Chosen = 3
+		case <-time.After(20 * time.Second):
+			t.Fatalf("select %d: no reply from switch", ci)
+		}
+		if le != nil {
+			c.Reply, _, c.Name, _ = vClassify(le)
+			if _, ok := le.WireMessage().(*lnwire.FailUnknownNextPeer); ok {
+				c.Reply = vUnknownNextPeer
+			}
+		} else {
+			c.Name = "forwarded"
+		}
 		out.emit(c)
 	}
 }
